@@ -181,6 +181,31 @@ async def run_async(ctx, res, only=None):
                     cases.append(dict(table=tname, row=row["name"], kind=kind, conv=cw, triple=list(held if (kind == "control" or only) else triple), value=v,
                                       via="Device.set" if via_device else "parameter.set", obs=obs, raised=raised, tx=tx,
                                       after=after, result=list(r)))
+        # re-report pass: the controller reports a row, then reports it AGAIN with the same value and other bounds
+        # (no set in between, so nothing is pending); the next request is judged against the LAST reported bounds
+        if only is None:
+            for tname, kind, label, row in rows_of(product, tables):
+                if kind == "control" or (kind == "schedule" and row["switch"]):
+                    continue
+                n = 256 ** row["size"]
+                v = rng.randrange(10, min(n, 250) - 10)
+                wide, narrow = (v, v - 8, v + 8), (v, v - 2, v + 2)
+                first, second = (wide, narrow) if rng.random() < 0.6 else (narrow, wide)
+                cw = pd.conv_words(kind, row)
+                await feed_triple(w, tables, tname, kind, row, first, st)
+                await feed_triple(w, tables, tname, kind, row, second, st)
+                dev = w.device(label)
+                p = dev.data[row["name"]]
+                held = (p.values.value, p.values.min_value, p.values.max_value)
+                raw_req = v + rng.choice([5, -5, 3, -3])           # inside the wide bounds, outside the narrow ones
+                val = shown(kind, row, raw_req)
+                r, frames = await pd.run_set(w, lambda: p.set(val, retries=1, timeout=0.01))
+                after = dev.data[row["name"]].values.value
+                obs, raised, tx = observe(kind, row, r, frames, held, after)
+                if held != second:
+                    res.count("rereport:held-differs-from-last-report")
+                cases.append(dict(table=tname, row=row["name"], kind=kind, conv=cw, triple=list(second), value=val,
+                                  via="parameter.set after re-report", obs=obs, raised=raised, tx=tx, after=after, result=list(r)))
         await w.shutdown()
     lines = []
     for c in cases:
